@@ -129,6 +129,24 @@ def check_c14(tier: str, seed: int) -> int:
 
     t0 = time.time()
     st, _ = tlcrun.check("Prng", "Prng.cfg", workers=8, timeout=600)
+    apalache = []
+    if tier == "thorough":
+        # bounded-size inductive argument with Apalache on the unbounded key model (spec/apalache/PrngInd.tla):
+        # Init => IndInv, IndInv /\ Next => IndInv', IndInv => Fresh /\ Reproducible /\ Independent, and a vacuity guard
+        adir = os.path.join(ROOT, "spec", "apalache")
+        for name, args, want_error in (("base", ["--init=Init", "--inv=IndInv", "--length=0"], False),
+                                       ("step", ["--init=IndInit", "--inv=IndInv", "--length=1"], False),
+                                       ("consequences", ["--init=IndInit", "--inv=Consequences", "--length=0"], False),
+                                       ("not-vacuous", ["--init=IndInit", "--inv=NotVacuous", "--length=0"], True)):
+            p = subprocess.run(["timeout", "900", "apalache-mc", "check", *args, f"--out-dir={os.path.join(OUT, 'apalache')}", "PrngInd.tla"],
+                               cwd=adir, capture_output=True, text=True)
+            outp = p.stdout + p.stderr
+            ok = ("The outcome is: Error" in outp) if want_error else ("The outcome is: NoError" in outp)
+            apalache.append(f"{name}: {'as required' if ok else 'UNEXPECTED'}")
+            if not ok:
+                print(outp[-1500:])
+                print("MACHINERY-FAILURE property=C14: Apalache obligation '%s' did not come out as required" % name)
+                return 2
     nprog, nsteps, npairs, psteps = (20, 20, 8, 14) if tier == "quick" else (320, 40, 160, 30)
     tdir = os.path.join(OUT, f"traces_C14_{tier}")
     import shutil
@@ -210,7 +228,7 @@ def check_c14(tier: str, seed: int) -> int:
     cov = {"states": st["distinct"] + tstats["lines"], "transitions": st["generated"] + tstats["lines"],
            "traces_validated_against_impl": pairs + nprog, "samples": samples,
            "evaluations": pairs + tstats["lines"], "distinct_nontrivial": pairs,
-           "twin_pairs": pairs, "random_decisions_in_twin_programs": draws,
+           "twin_pairs": pairs, "random_decisions_in_twin_programs": draws, "apalache_inductive_obligations": apalache,
            "unforced_trace_lines_judged_for_key_freshness": tstats["lines"],
            "rule": "a twin pair = one seeded random program executed after two different histories in one process (and every "
                    "third pair also in a fresh process); observations = per call: outcomes, consumed key digests, byte digests "
